@@ -234,15 +234,20 @@ def run(ctx):
                        and isinstance(a.value.value, ast.Name) and a.value.value.id == vkw and a.value.attr == k)
             dicts = [a.value for a in walk_local(bkw) if isinstance(a, ast.Assign) and isinstance(a.targets[0], ast.Name) and a.targets[0].id == v.id]
             roots = set()
+            direct = 0
             for d in dicts:
                 for x in ast.walk(d):
                     if isinstance(x, ast.Attribute) and isinstance(x.value, ast.Name) and x.value.id != 'self':
-                        roots.add(x.value.id)
-            okv = bool(srcs) and bool(dicts) and all(isinstance(d, ast.Dict) for d in dicts) and roots <= srcs and bool(roots)
+                        if x.value.id == vkw and x.attr == k:
+                            direct += 1          # value.<k>.<field> written out (no local in between)
+                        else:
+                            roots.add(x.value.id)
+            okv = (bool(srcs) or direct > 0) and bool(dicts) and all(isinstance(d, ast.Dict) for d in dicts) and roots <= srcs and (bool(roots) or direct > 0)
         ctx.check(okv, 'C05.R2', 'ObjectFactory._build_key_wrapping_data|%s' % k, '%s:%s' % (PIEFAC, v.lineno), "'%s' <- value.%s" % (k, k), "key wrapping datum '%s' is filled from %s" % (k, U(v)))
     # converters: constructor parameter <- field of the same role
     n_bind = 0
-    for mname, fn in methods(fac).items():
+    from ..inline import flat_methods
+    for mname, fn in flat_methods(fac)[0].items():
         if not (mname.startswith('_build_pie_') or mname.startswith('_build_core_')):
             continue
         gg = CFG(fn)
